@@ -12,7 +12,7 @@ for sid in ids:
     d = os.path.join(VERIF, "seeded", sid)
     meta = json.load(open(os.path.join(d, "meta.json")))
     prop = meta["breaks_property"]
-    checks = opts["checks"].split(",") if "checks" in opts else [c for c in dict.fromkeys([prop, "C01", "C08", "C16"]) if c in registered]
+    checks = [prop] if opts.get("checks") == "own" else opts["checks"].split(",") if "checks" in opts else [c for c in dict.fromkeys([prop, "C01", "C08", "C16"]) if c in registered]
     work = tempfile.mkdtemp(prefix="mut.")
     try:
         os.makedirs(work + "/repo")
